@@ -1218,6 +1218,9 @@ def gen_m_call(g, gs, cfg, mid, force_method=None):
                 rec["invalid"] = True
             rec["args"] = {"Y": idx_arg(g, Y, None if invalid else p), "X": idx_arg(g, X, None if invalid else p) if X else [],
                            "x": (enc(np.array(x, dtype=float)) if g.random() < 0.5 else x) if x else []}
+            if x and g.random() < 0.08:
+                # the conditioning values as a row or column vector (a 2-d array)
+                rec["args"]["x"] = enc(np.array(x, dtype=float).reshape((-1, 1) if g.random() < 0.5 else (1, -1)))
         elif method in ("regress", "mse"):
             y = g.randrange(p)
             k = g.randint(0, p)
